@@ -1448,8 +1448,10 @@ private:
                 val = binary::big_to_native<uint64_t>(buf, sizeof(buf));
                 break;
             }
-            default:
-                break;
+            default: // 0x1c..0x1e are reserved, 0x1f is not an argument
+                ec = cbor_errc::unknown_type;
+                more_ = false;
+                return 0;
         }
         return val;
     }
@@ -1530,9 +1532,19 @@ private:
                                 return val;
                             }
                             auto x = binary::big_to_native<uint64_t>(buf, sizeof(buf));
+                            if (x > static_cast<uint64_t>((std::numeric_limits<int64_t>::max)()))
+                            {
+                                ec = cbor_errc::number_too_large;
+                                more_ = false;
+                                return 0;
+                            }
                             val = static_cast<int64_t>(-1)- static_cast<int64_t>(x);
                             break;
                         }
+                    default: // 0x1c..0x1e are reserved, 0x1f is not an argument
+                        ec = cbor_errc::unknown_type;
+                        more_ = false;
+                        return 0;
                 }
                 break;
 
